@@ -3,7 +3,7 @@
   for every key path, table and fuel larger than the path's length the Go function returns (no panic, the recursion ends)
   and its two results are the model's answer.
 -/
-import Anonymongo.Props.Src.Basic
+import Anonymongo.Props.Src.PathFns
 namespace Anonymongo.Src
 open Anonymongo Anonymongo.Go
 
